@@ -265,6 +265,15 @@ def check(model: Model, run: Run) -> None:
     run.floor("whole-span (offset, length) pairs", n_pairs, 5)
     # ---- (3a) attribute/rule strings are validated before they reach a constructor ----
     guard_rule(model, mr, run, reach)
+    # "only accepts what it can faithfully represent": an escape is backslash + exactly two hex digits, nothing more lenient
+    from ..rx.sites import find_sites as _fs
+    from .c13 import strict_hex_decoding
+    pq = {f.qualname for f in fa_.parser_functions}
+    un = [s_ for s_ in _fs(model) if s_.module == FILTER and s_.api == "sub" and s_.func.split(".<locals>")[0] in pq]
+    if len(un) == 1:
+        strict_hex_decoding(model, run, un[0], "F6-escape-digits-decoded-strictly")
+    else:
+        run.note(f"un-escaper substitution not identified ({len(un)} candidates): F6 not decided")
     # ---- (3b) the pattern's language (Engine E) ---------------------------------------
     try:
         from . import c15_lang
